@@ -105,3 +105,162 @@ Proof.
       now destruct l. }
   unfold swapped. rewrite !G. reflexivity.
 Qed.
+
+(* ---------------------------------------------------------------- Elim::swap (right-hand side) *)
+Section SwapVecProof.
+  Variable T : Type.
+  Variable zero : T.
+  Variable W n : nat.
+  Notation get2 := (c09_get2 T zero).
+  Notation set2 := (c09_set2 T zero W n).
+
+  Lemma get2_set2 : forall x r l v r' l', r' < n -> l' < W ->
+    get2 (set2 x r l v) r' l' = if (r' =? r) && (l' =? l) then v else get2 x r' l'.
+  Proof.
+    intros. unfold c09_set2. unfold c09_get2 at 1.
+    rewrite (c09_tab_nth _ n _ r' []) by assumption. now rewrite c09_tab_nth by assumption.
+  Qed.
+
+  Variable i : nat.
+  Variable p : nat -> nat.
+  Hypothesis i_lt : i < n.
+  Hypothesis p_lt : forall l, l < W -> p l < n.
+
+  Definition swapped2 (x : list (list T)) r l : T :=
+    if r =? i then get2 x (p l) l else if r =? p l then get2 x i l else get2 x r l.
+
+  Lemma get2_swap_cell2 : forall x l0 r l, r < n -> l < W -> l0 < W ->
+    get2 (c09_swap_cell2 T zero W n x i (p l0) l0) r l = if l =? l0 then swapped2 x r l else get2 x r l.
+  Proof.
+    intros. unfold c09_swap_cell2, swapped2. rewrite !get2_set2 by auto.
+    destruct (l =? l0) eqn:El; rewrite ?andb_false_r, ?andb_true_r; auto.
+    apply Nat.eqb_eq in El. subst l.
+    destruct (r =? p l0) eqn:E1; destruct (r =? i) eqn:E2; simpl; auto.
+    apply Nat.eqb_eq in E1, E2. now rewrite <- E1, E2.
+  Qed.
+
+  Lemma vec_loop : forall ls x r l, NoDup ls -> (forall y, In y ls -> y < W) -> r < n -> l < W ->
+    get2 (fold_left (fun x l => c09_swap_cell2 T zero W n x i (p l) l) ls x) r l =
+    if (if in_dec Nat.eq_dec l ls then true else false) then swapped2 x r l else get2 x r l.
+  Proof.
+    induction ls as [|l0 ls IH]; simpl; intros x r l ND Hls Hr Hl; auto.
+    inversion ND; subst. assert (H0 : l0 < W) by (apply Hls; auto).
+    rewrite IH; auto.
+    destruct (in_dec Nat.eq_dec l ls) as [I|NI].
+    - destruct (Nat.eq_dec l0 l) as [E|NE]; [subst; contradiction|].
+      assert (El : (l =? l0) = false) by (apply Nat.eqb_neq; auto).
+      unfold swapped2. rewrite !get2_swap_cell2 by auto. now rewrite El.
+    - rewrite get2_swap_cell2 by auto. destruct (Nat.eq_dec l0 l) as [E|NE].
+      + subst. now rewrite Nat.eqb_refl.
+      + assert (El : (l =? l0) = false) by (apply Nat.eqb_neq; auto). now rewrite El.
+  Qed.
+End SwapVecProof.
+
+Lemma P_swapvec_loops : forall (T : Type) (zero : T) (W n : nat) (x : list (list T)) (i : nat) (imax : list nat) r l,
+  i < n -> (forall l, l < W -> nth l imax 0 < n) -> r < n -> l < W ->
+  c09_get2 T zero (c09_v_swapvec_loops T zero W n x i imax) r l = c09_get2 T zero (c09_v_swapvec T zero W n x i imax) r l.
+Proof.
+  intros. unfold c09_v_swapvec_loops.
+  rewrite (vec_loop T zero W n i (fun l => nth l imax 0)); auto; [|apply seq_NoDup|intros y Hy; apply in_seq in Hy; lia].
+  destruct (in_dec Nat.eq_dec l (seq 0 W)) as [I|NI]; [|exfalso; apply NI; apply in_seq; lia].
+  unfold c09_v_swapvec. unfold c09_get2 at 1.
+  rewrite (c09_tab_nth _ n _ r []) by assumption. rewrite c09_tab_nth by assumption. reflexivity.
+Qed.
+
+(* ---------------------------------------------------------------- invert: column un-permutation, one step i *)
+Section UnpermProof.
+  Variable T : Type.
+  Variable zero : T.
+  Variable W n : nat.
+  Notation get3 := (c09_get3 T zero).
+  Variable i : nat.
+  Variable p : nat -> nat.
+  Hypothesis i_lt : i < n.
+  Hypothesis p_lt : forall l, l < W -> p l < n.
+
+  Definition colswapped (M : list (list (list T))) r c l : T :=
+    if c =? i then get3 M r (p l) l else if c =? p l then get3 M r i l else get3 M r c l.
+
+  Lemma get3_swap_cols_cell : forall M j l0 r c l, r < n -> c < n -> l < W -> j < n -> l0 < W ->
+    get3 (c09_swap_cols_cell T zero W n M j (p l0) i l0) r c l =
+    if (r =? j) && (l =? l0) then colswapped M r c l else get3 M r c l.
+  Proof.
+    intros. unfold c09_swap_cols_cell, colswapped. rewrite !(get3_set3 T zero W n) by auto.
+    destruct (r =? j) eqn:Er; destruct (l =? l0) eqn:El; simpl; rewrite ?andb_false_r, ?andb_true_r; auto.
+    apply Nat.eqb_eq in Er, El. subst r l.
+    destruct (c =? i) eqn:E1; destruct (c =? p l0) eqn:E2; simpl; auto.
+  Qed.
+
+  (* the loop over the rows j for one lane l0 *)
+  Lemma rows_loop : forall l0 js M r c l, l0 < W -> NoDup js -> (forall x, In x js -> x < n) -> r < n -> c < n -> l < W ->
+    get3 (fold_left (fun M j => c09_swap_cols_cell T zero W n M j (p l0) i l0) js M) r c l =
+    if (l =? l0) && (if in_dec Nat.eq_dec r js then true else false) then colswapped M r c l else get3 M r c l.
+  Proof.
+    induction js as [|j0 js IH]; simpl; intros M r c l Hl0 ND Hjs Hr Hc Hl.
+    - now rewrite andb_false_r.
+    - inversion ND; subst. assert (Hj0 : j0 < n) by (apply Hjs; auto).
+      rewrite IH; auto.
+      destruct (l =? l0) eqn:El; simpl.
+      + destruct (in_dec Nat.eq_dec r js) as [I|NI].
+        * destruct (Nat.eq_dec j0 r) as [E|NE]; [subst; contradiction|].
+          assert (Er : (r =? j0) = false) by (apply Nat.eqb_neq; auto).
+          unfold colswapped. rewrite !get3_swap_cols_cell by auto. now rewrite Er.
+        * rewrite get3_swap_cols_cell by auto. rewrite El. destruct (Nat.eq_dec j0 r) as [E|NE].
+          -- subst. now rewrite Nat.eqb_refl.
+          -- assert (Er : (r =? j0) = false) by (apply Nat.eqb_neq; auto). now rewrite Er.
+      + rewrite get3_swap_cols_cell by auto. now rewrite El, andb_false_r.
+  Qed.
+
+  Lemma colswapped_id : forall M r c l, i = p l -> colswapped M r c l = get3 M r c l.
+  Proof.
+    intros. unfold colswapped. rewrite <- H.
+    destruct (c =? i) eqn:E; auto. apply Nat.eqb_eq in E. now subst.
+  Qed.
+
+  (* the loop over the lanes, with the test i != pi *)
+  Lemma lanes_loop : forall ls M r c l, NoDup ls -> (forall x, In x ls -> x < W) -> r < n -> c < n -> l < W ->
+    get3 (fold_left (fun M l => if i =? p l then M
+                                else fold_left (fun M j => c09_swap_cols_cell T zero W n M j (p l) i l) (seq 0 n) M) ls M) r c l =
+    if (if in_dec Nat.eq_dec l ls then true else false) then colswapped M r c l else get3 M r c l.
+  Proof.
+    induction ls as [|l0 ls IH]; simpl; intros M r c l ND Hls Hr Hc Hl; auto.
+    inversion ND; subst. assert (H0 : l0 < W) by (apply Hls; auto).
+    assert (STEP : forall r c l, r < n -> c < n -> l < W ->
+              get3 (if i =? p l0 then M else fold_left (fun M j => c09_swap_cols_cell T zero W n M j (p l0) i l0) (seq 0 n) M) r c l =
+              if l =? l0 then colswapped M r c l else get3 M r c l).
+    { intros r' c' l' Hr' Hc' Hl'. destruct (i =? p l0) eqn:Ei.
+      - apply Nat.eqb_eq in Ei. destruct (l' =? l0) eqn:El; auto.
+        apply Nat.eqb_eq in El. subst l'. symmetry. now apply colswapped_id.
+      - rewrite rows_loop; auto; [|apply seq_NoDup|intros x Hx; apply in_seq in Hx; lia].
+        destruct (in_dec Nat.eq_dec r' (seq 0 n)) as [I|NI]; [|exfalso; apply NI; apply in_seq; lia].
+        now rewrite andb_true_r. }
+    rewrite IH; auto.
+    destruct (in_dec Nat.eq_dec l ls) as [I|NI].
+    - destruct (Nat.eq_dec l0 l) as [E|NE]; [subst; contradiction|].
+      assert (El : (l =? l0) = false) by (apply Nat.eqb_neq; auto).
+      unfold colswapped. rewrite !STEP by auto. now rewrite El.
+    - rewrite STEP by auto. destruct (Nat.eq_dec l0 l) as [E|NE].
+      + subst. now rewrite Nat.eqb_refl.
+      + assert (El : (l =? l0) = false) by (apply Nat.eqb_neq; auto). now rewrite El.
+  Qed.
+End UnpermProof.
+
+Lemma P_unperm_step_loops : forall (T : Type) (zero : T) (W n : nat) (M : list (list (list T))) (i : nat) (pv : list nat) r c l,
+  i < n -> (forall l, l < W -> nth l pv 0 < n) -> r < n -> c < n -> l < W ->
+  c09_get3 T zero (c09_v_unperm_step_loops T zero W n M i pv) r c l =
+  c09_get3 T zero (c09_v_unperm_step T zero W n M i pv) r c l.
+Proof.
+  intros. unfold c09_v_unperm_step_loops.
+  rewrite (lanes_loop T zero W n i (fun l => nth l pv 0)); auto; [|apply seq_NoDup|intros x Hx; apply in_seq in Hx; lia].
+  destruct (in_dec Nat.eq_dec l (seq 0 W)) as [I|NI]; [|exfalso; apply NI; apply in_seq; lia].
+  unfold c09_v_unperm_step. unfold c09_get3 at 1.
+  rewrite (c09_tab_nth _ n _ r []) by assumption. rewrite (c09_tab_nth _ n _ c []) by assumption.
+  rewrite c09_tab_nth by assumption.
+  assert (G : forall cc, nth l (c09_vget T zero W M r cc) zero = c09_get3 T zero M r cc l).
+  { intros. unfold c09_vget, c09_g_get, c09_get3.
+    destruct (lt_dec cc (length (nth r M []))) as [L|L].
+    - f_equal. apply nth_indep. exact L.
+    - rewrite !nth_overflow with (n := cc) by lia. unfold c09_vzero, c09_vbcast. rewrite c09_tab_nth by assumption.
+      now destruct l. }
+  unfold colswapped. rewrite !G. reflexivity.
+Qed.
